@@ -14,7 +14,7 @@ import random
 import z3
 from .vals import *
 from .ops import truth, concrete
-from .state import State, Unsupported, PathEnd
+from .state import State, Unsupported, PathEnd, CannotBind
 from .executor import Exec, Frame
 from .contracts import CONTRACTS
 
@@ -230,6 +230,10 @@ class ConcreteChecker:
                 v = truth(ex.eval_spec(text, st, env={'result': result, '__exc__': None}, old_state=old))
             except PathEnd:
                 v = False
+            except CannotBind as e:
+                if 'undefined in the current state' not in str(e):
+                    raise
+                v = False       # the clause reads something the concrete outcome does not have (e.g. an element of an empty result)
             except Unsupported as e:
                 bad.append('cannot evaluate %r concretely: %s' % (text, e))
                 continue
